@@ -46,6 +46,16 @@ static int excOf(const lg::Pair &p, const lg::Field &f) {
   return 0;
 }
 
+// width of a plain integer field as the harness draws values from it: normally the bits the setter stores (glue W);
+// the C15 harness overrides it with the PUBLISHED field length, so that a setter masking too narrowly is exercised
+// with the values it loses
+static std::map<const lg::Field *, int> g_widthOverride;
+static int intWidth(const lg::Field &f) {
+  auto it = g_widthOverride.find(&f);
+  if (it != g_widthOverride.end()) return it->second;
+  return f.W > 0 ? f.W : f.typeBits;
+}
+
 // ---- scaled codes, from the property statement / the NMEA 2000 field format
 static long long naCode(int w, bool s) { return s ? (long long)(maskBits(8 * w) >> 1) : (long long)maskBits(8 * w); }   // as signed value for signed fields
 static long long minCode(int w, bool s) { return s ? (w == 8 ? -(1LL << 50) : -(1LL << (8 * w - 1))) : 0; }
@@ -104,7 +114,7 @@ static std::vector<Cell> specials(const lg::Pair &p, const lg::Field &f, Rng &r)
       break; }
     case lg::K_UINT: {
       if (ex & 1) { addI(0, "zero"); addI(1, "one"); addI(255, "NA"); break; }
-      int W = f.W > 0 ? f.W : f.typeBits; if (ex & 4) W = 12;
+      int W = intWidth(f); if (ex & 4) W = 12;
       u64 m = maskBits(W);
       addI(0, "zero"); addI(1, "one"); addI((long long)m, W == f.typeBits ? "NA" : "max");
       if (W > 1) addI((long long)(m - 1), "big");
@@ -112,7 +122,7 @@ static std::vector<Cell> specials(const lg::Pair &p, const lg::Field &f, Rng &r)
       if (W > 2) addI((long long)(r.next() & m), "rand");
       break; }
     case lg::K_SINT: {
-      int W = f.W > 0 ? f.W : f.typeBits;
+      int W = intWidth(f);
       if (W < f.typeBits) { u64 m = maskBits(W); addI(0, "zero"); addI((long long)m, "max"); addI((long long)(r.next() & m), "rand"); break; }
       long long hi = (long long)(maskBits(W) >> 1), lo = -hi - 1;
       addI(0, "zero"); addI(1, "one"); addI(hi, "NA"); addI(hi - 1, "big"); addI(lo, "min"); addI(-1, "neg");
@@ -225,7 +235,7 @@ static const char *classOf(const lg::Pair &p, const lg::Field &f, const Cell &c)
       if (s && c.code == minCode(w, s)) return "min";
       return c.code < 0 ? "neg" : "rand"; }
     case lg::K_UINT: {
-      int W = f.W > 0 ? f.W : f.typeBits; if (ex & 4) W = 12;
+      int W = intWidth(f); if (ex & 4) W = 12;
       u64 m = maskBits(W), v = (u64)c.v.i;
       if (v == 0) return "zero";
       if (v == 1) return "one";
@@ -234,7 +244,7 @@ static const char *classOf(const lg::Pair &p, const lg::Field &f, const Cell &c)
       if ((v & (v - 1)) == 0) return "bit";
       return "rand"; }
     case lg::K_SINT: {
-      int W = f.W > 0 ? f.W : f.typeBits;
+      int W = intWidth(f);
       if (W < f.typeBits) return c.v.i == 0 ? "zero" : ((u64)c.v.i == maskBits(W) ? "max" : "rand");
       long long hi = (long long)(maskBits(W) >> 1), lo = -hi - 1;
       if (c.v.i == 0) return "zero";
